@@ -158,14 +158,24 @@ class Parser(Emitter):
         start_cell = Cell(start_label)
         end_cell = Cell(end_label)
 
-        if start_row.index <= end_row.index:
+        rows_in_order = start_row.index <= end_row.index
+        cols_in_order = start_col.index <= end_col.index
+        # in a one-row or one-column range the written corners are the top-left and bottom-right
+        # cells: the tied parts travel with their cells ($ markers and all), so that A2:$A1 and
+        # $A1:A2 deliver the same two cells
+        if start_row.index == end_row.index and start_col.index != end_col.index:
+            rows_in_order = cols_in_order
+        elif start_col.index == end_col.index and start_row.index != end_row.index:
+            cols_in_order = rows_in_order
+
+        if rows_in_order:
             start_cell.row = start_row
             end_cell.row = end_row
         else:
             end_cell.row = start_row
             start_cell.row = end_row
 
-        if start_col.index <= end_col.index:
+        if cols_in_order:
             start_cell.col = start_col
             end_cell.col = end_col
         else:
